@@ -167,8 +167,15 @@ def assume_cases(tier, seed):
                          [rng.randrange(8) for _ in range(r)],
                          # class of the tensor: the declaration must not change it
                          "anti" if name in ("f", "V") else rng.choice(["anti", "anti", "sym", "amp"])])
-        yield {"objs": objs, "sym": rng.sample(["d", "x"], rng.randint(0, 2)),
-               "antisym": [], "real": rng.random() < 0.5}
+        # how the assumptions are declared: constructor / sym_tensors first, make_real() afterwards /
+        # set_sym_tensors then make_real(); the Fock matrix or the ERI may be declared beforehand
+        yield {"objs": objs, "sym": rng.sample(["d", "x", "f", "V"], rng.randint(0, 3)),
+               "antisym": [], "real": rng.random() < 0.6, "route": rng.choice(["constructor", "then_real", "setters"])}
+    # every prior declaration of f / V, every route (real orbitals)
+    for sym in ([], ["f"], ["V"], ["f", "V"], ["d", "f"], ["d", "V"]):
+        for route in ("constructor", "then_real", "setters"):
+            yield {"objs": [["f", [0], [3], "anti"], ["V", [0, 1], [3, 4], "anti"], ["d", [1], [4], "anti"]],
+                   "sym": sym, "antisym": [], "real": True, "route": route}
 
 
 def assume_check(case):
@@ -183,7 +190,20 @@ def assume_check(case):
         return True, "vanishes"
     sym = [s for s in case["sym"]]
     e0 = Expr(term)
-    e1 = Expr(term, real=case["real"], sym_tensors=sym)
+    route = case.get("route", "constructor")
+    if route == "constructor":
+        e1 = Expr(term, real=case["real"], sym_tensors=sym)
+    elif route == "then_real":
+        e1 = Expr(term, sym_tensors=sym)
+        if case["real"]:
+            e1.make_real()
+    else:
+        e1 = Expr(term)
+        e1.set_sym_tensors(sym)
+        if case["real"]:
+            e1.make_real()
+    if bool(e1.real) != bool(case["real"]):
+        return False, f"real = {e1.real} after declaring real = {case['real']} ({route})"
     # idempotent
     before = e1.sympy
     e1.set_sym_tensors(list(e1.sym_tensors))
